@@ -428,3 +428,73 @@ T("C17", "twin-r3-settings-bound-per-option", G, _WT, "            while len(set
 T("C17", "twin-r3-settings-for-range-generous", G, _WT, "            for _ in range(GUARD_PATCH_SIZE // 6):\n                if fh_guard.peek(2)[:2] == b\"\\x00\\x00\":\n")
 # a bound the rule cannot read (not a constant): undecided
 T("C17", "twin-r3-settings-bound-opaque", G, _WT, "            while len(settings) < len(unmasked_guard_config):\n                if fh_guard.peek(2)[:2] == b\"\\x00\\x00\":\n")
+
+# ================================================================================================ R3: marker table generated at import time
+# (wave 4: the table is folded as a module-level constant - enum members of the parsed definition, comprehensions over
+# constant tables, struct.pack / int.to_bytes / bytes / join on constants; straight-line module-level rebinding, += and
+# append / extend - also as the single statement of a for loop - as expressions over the previous binding; a table built
+# by package helpers is undecided)
+_TABLE = (
+    "GUARD_CONFIG_STARTS = [\n"
+    "    b\"\\x00\\x05\\x00\\x01\\x00\\x02\",  # GUARD_USER\n"
+    "    b\"\\x00\\x06\\x00\\x01\\x00\\x02\",  # GUARD_COMPUTER\n"
+    "    b\"\\x00\\x07\\x00\\x01\\x00\\x02\",  # GUARD_DOMAIN\n"
+    "    b\"\\x00\\x08\\x00\\x02\\x00\\x04\",  # GUARD_LOCAL_IP\n"
+    "]\n"
+)
+_ENUMS = "GuardOption = c_guardrails.GuardOption\n"
+
+
+def _generated(code, imp=""):
+    return [(G, "import logging\n", "import logging\n" + imp), (G, _TABLE, ""), (G, _ENUMS, _ENUMS + "SettingsType = c_guardrails.SettingsType\n" + code)]
+
+
+_BY_DICT = (
+    "_START_OF = {{\n"
+    "    GuardOption.GUARD_USER: (SettingsType.TYPE_SHORT, 2),\n"
+    "    GuardOption.GUARD_COMPUTER: (SettingsType.TYPE_SHORT, 2),\n"
+    "    GuardOption.GUARD_DOMAIN: (SettingsType.TYPE_SHORT, 2),\n"
+    "    GuardOption.GUARD_LOCAL_IP: (SettingsType.{ip}, 4),\n"
+    "}}\n"
+    "GUARD_CONFIG_STARTS = [pack(\"{fmt}\", opt, typ, size) for opt, (typ, size) in _START_OF.items()]\n"
+)
+T("C17", "twin-r3-table-packed-from-dict", G, "", "", edits=_generated(_BY_DICT.format(ip="TYPE_INT", fmt=">3H"), "from struct import pack\n"))
+M("C17", "r3-table-packed-wrong-type", G, "", "", "C17.R3", edits=_generated(_BY_DICT.format(ip="TYPE_SHORT", fmt=">3H"), "from struct import pack\n"))
+M("C17", "r3-table-packed-little-endian", G, "", "", "C17.R3", edits=_generated(_BY_DICT.format(ip="TYPE_INT", fmt="<3H"), "from struct import pack\n"))
+_BY_ENUM = (
+    "_WIDE = (GuardOption.GUARD_LOCAL_IP,)\n"
+    "GUARD_CONFIG_STARTS = [\n"
+    "    b\"\".join(int(x).to_bytes(2, \"big\") for x in (o, SettingsType.TYPE_INT if o in _WIDE else SettingsType.TYPE_SHORT, 4 if o in _WIDE else 2))\n"
+    "    for o in GuardOption\n"
+    "    if o {cond}\n"
+    "]\n"
+)
+T("C17", "twin-r3-table-from-enum-iteration", G, "", "", edits=_generated(_BY_ENUM.format(cond="!= GuardOption.GUARD_PAYLOAD_CHECKSUM")))
+# GUARD_DOMAIN-first configurations are no longer found
+M("C17", "r3-table-from-enum-iteration-drops-domain", G, "", "", "C17.R3", edits=_generated(_BY_ENUM.format(cond="not in (GuardOption.GUARD_PAYLOAD_CHECKSUM, GuardOption[\"GUARD_DOMAIN\"])")))
+_BY_CONCAT = (
+    "_SHORT_2 = bytes([0, SettingsType.TYPE_SHORT.value, 0, 2])\n"
+    "GUARD_CONFIG_STARTS = [bytes([0, v]) + _SHORT_2 for v in range(GuardOption.GUARD_USER.value, GuardOption.GUARD_DOMAIN.value + {k})]\n"
+    "GUARD_CONFIG_STARTS = GUARD_CONFIG_STARTS + [struct.pack(\">HHH\", GuardOption(8), SettingsType(2), 4)]\n"
+)
+# rebound container: the second binding is folded over the first
+T("C17", "twin-r3-table-rebound-concat", G, "", "", edits=_generated(_BY_CONCAT.format(k="1"), "import struct\n"))
+_BY_LOOP = (
+    "GUARD_CONFIG_STARTS = []\n"
+    "for _opt, _typ, _len in ((5, 1, 2), (6, 1, 2), (7, 1, 2), (8, 2, 4)):\n"
+    "    GUARD_CONFIG_STARTS.append(struct.pack(\">HHH\", _opt, _typ, _len))\n"
+)
+# built by an append loop == comprehension over the constant tuple
+T("C17", "twin-r3-table-append-loop", G, "", "", edits=_generated(_BY_LOOP, "import struct\n"))
+M("C17", "r3-table-append-loop-wrong-length", G, "", "", "C17.R3", edits=_generated(_BY_LOOP.replace("(8, 2, 4)", "(8, 2, 2)"), "import struct\n"))
+M("C17", "r3-table-rebound-concat-wrong-option", G, "", "", "C17.R3", edits=_generated(_BY_CONCAT.format(k="1").replace("GuardOption(8)", "GuardOption(9)"), "import struct\n"))
+# serialised by package helpers (they would have to be interpreted): not folded, undecided
+_BY_HELPER = "GUARD_CONFIG_STARTS = [p16be(o) + p16be(t) + p16be(n) for o, t, n in ((5, 1, 2), (6, 1, 2), (7, 1, 2), (8, 2, 4))]\n"
+T("C17", "twin-r3-table-by-package-helper", G, "", "", edits=_generated(_BY_HELPER) + [(G, "import grouper, u32be, xor\n", "import grouper, p16be, u32be, xor\n")])
+_BY_RANGE = (
+    "GUARD_CONFIG_STARTS = [bytes([0, v, 0, 1, 0, 2]) for v in range(GuardOption.GUARD_USER.value, GuardOption.GUARD_DOMAIN.value + {k})] + [\n"
+    "    struct.Struct(\">HHH\").pack(GuardOption(8), SettingsType(2), 4)\n"
+    "]\n"
+)
+T("C17", "twin-r3-table-range-of-option-values", G, "", "", edits=_generated(_BY_RANGE.format(k="1"), "import struct\n"))
+M("C17", "r3-table-range-of-option-values-short", G, "", "", "C17.R3", edits=_generated(_BY_RANGE.format(k="0"), "import struct\n"))
